@@ -701,3 +701,131 @@ impl Modeled for TransSkipPayload {
 		0
 	}
 }
+
+
+/// `repr(transparent)` over a real field plus a field that is zero-sized in memory but NOT on the
+/// wire (one index byte): the in-place `decode_into` must still decode it.
+#[derive(Encode, Decode, DecodeWithMemTracking, PartialEq, Debug, Clone)]
+#[repr(transparent)]
+pub struct TransMarker(pub u32, pub Marker);
+impl Modeled for TransMarker {
+	fn ty(d: usize) -> String {
+		format!("adt struct 2 p u32 p {}", Marker::ty(d))
+	}
+	fn val(&self, out: &mut String, c: bool) {
+		write!(out, "L 2 n{} ", self.0).unwrap();
+		self.1.val(out, c)
+	}
+	fn gen(g: &mut G) -> Self {
+		TransMarker(u32::gen(g), Marker::Only)
+	}
+	fn min_len() -> usize {
+		5
+	}
+}
+/// The same with the marker first and a heap-holding payload.
+#[derive(Encode, Decode, DecodeWithMemTracking, PartialEq, Debug, Clone)]
+#[repr(transparent)]
+pub struct TransMarkerVec {
+	pub tag: Marker,
+	pub items: Vec<u16>,
+}
+impl Modeled for TransMarkerVec {
+	fn ty(d: usize) -> String {
+		format!("adt struct 2 p {} p {}", Marker::ty(d), Vec::<u16>::ty(d))
+	}
+	fn val(&self, out: &mut String, c: bool) {
+		out.push_str("L 2 ");
+		self.tag.val(out, c);
+		out.push(' ');
+		self.items.val(out, c)
+	}
+	fn gen(g: &mut G) -> Self {
+		TransMarkerVec { tag: Marker::Only, items: Vec::gen(g) }
+	}
+	fn min_len() -> usize {
+		2
+	}
+}
+
+/// A skipped variant declared BEFORE a live variant of the same shape (and that shape is the
+/// largest): the declared maximum must still count the live one.
+#[derive(Encode, Decode, DecodeWithMemTracking, MaxEncodedLen, PartialEq, Debug, Clone)]
+pub enum MelDup {
+	#[codec(skip)]
+	Legacy(u64),
+	Small(u8),
+	Current(u64),
+	#[codec(skip)]
+	Old { a: u32, b: u32 },
+	Pair { a: u32, b: u32 },
+}
+impl Modeled for MelDup {
+	fn ty(d: usize) -> String {
+		"adt enum 5 1 - - 1 p u64 0 - - 1 p u8 0 - - 1 p u64 1 - - 2 p u32 p u32 0 - - 2 p u32 p u32".into()
+	}
+	fn val(&self, out: &mut String, c: bool) {
+		match self {
+			MelDup::Small(x) => write!(out, "V 0 L 1 n{}", x).unwrap(),
+			MelDup::Current(x) => write!(out, "V 1 L 1 n{}", x).unwrap(),
+			MelDup::Pair { a, b } => write!(out, "V 2 L 2 n{} n{}", a, b).unwrap(),
+			_ => out.push('K'),
+		}
+	}
+	fn gen(g: &mut G) -> Self {
+		match g.rng.below(3) {
+			0 => MelDup::Small(u8::gen(g)),
+			1 => MelDup::Current(u64::gen(g)),
+			_ => MelDup::Pair { a: u32::gen(g), b: u32::gen(g) },
+		}
+	}
+	fn min_len() -> usize {
+		1
+	}
+}
+
+pub const DISC_BASE: isize = 0x40;
+pub mod tags {
+	pub const HIGH: isize = 0xF0;
+}
+/// Variant indices given by NON-LITERAL discriminant expressions (constants, arithmetic, paths)
+/// that exceed every literal index and position of the enum.
+#[derive(Encode, Decode, DecodeWithMemTracking, MaxEncodedLen, PartialEq, Eq, PartialOrd, Ord, Debug, Clone, Copy)]
+pub enum ConstDisc {
+	Ping = DISC_BASE,
+	Pong = DISC_BASE + 1,
+	Low = 2,
+	Top = tags::HIGH,
+}
+impl Modeled for ConstDisc {
+	fn ty(d: usize) -> String {
+		"adt enum 4 0 - 64 0 0 - 65 0 0 - 2 0 0 - 240 0".into()
+	}
+	fn val(&self, out: &mut String, c: bool) {
+		write!(out, "V {} L 0", *self as isize).unwrap();
+	}
+	fn gen(g: &mut G) -> Self {
+		[ConstDisc::Ping, ConstDisc::Pong, ConstDisc::Low, ConstDisc::Top][g.rng.below(4) as usize]
+	}
+	fn min_len() -> usize {
+		1
+	}
+}
+
+/// A tuple struct with skipped fields in the middle, each followed by encoded ones of other widths.
+#[derive(Encode, Decode, DecodeWithMemTracking, MaxEncodedLen, PartialEq, Debug, Clone)]
+pub struct MidSkip(pub u8, #[codec(skip)] pub u16, pub u32, #[codec(skip)] pub u8, pub u64, #[codec(compact)] pub u16);
+impl Modeled for MidSkip {
+	fn ty(d: usize) -> String {
+		"adt struct 6 p u8 s u16 p u32 s u8 p u64 c u16".into()
+	}
+	fn val(&self, out: &mut String, c: bool) {
+		write!(out, "L 4 n{} n{} n{} n{}", self.0, self.2, self.4, self.5).unwrap();
+	}
+	fn gen(g: &mut G) -> Self {
+		MidSkip(u8::gen(g), 0, u32::gen(g), 0, u64::gen(g), u16::gen(g))
+	}
+	fn min_len() -> usize {
+		14
+	}
+}
